@@ -1435,7 +1435,8 @@ class DSAPriv(PrivKey, DSAPub):
         else:
             self.encbytes = packet
 
-        if self.s2k.usage in [0, 255]:
+        # with usage 255 the two-octet checksum is part of the encrypted material
+        if self.s2k.usage == 0:
             self.chksum = packet[:2]
             del packet[:2]
 
@@ -1476,7 +1477,8 @@ class ElGPriv(PrivKey, ElGPub):
         else:
             self.encbytes = packet
 
-        if self.s2k.usage in [0, 255]:
+        # with usage 255 the two-octet checksum is part of the encrypted material
+        if self.s2k.usage == 0:
             self.chksum = packet[:2]
             del packet[:2]
 
